@@ -13,7 +13,7 @@ from fractions import Fraction
 import z3
 
 from .repo import Repo, Module, Unsupported, strip_docstring
-from .values import (V, Num, Bool, Str, NoneV, NONE, Opt, Tup, Lst, Dct, SetV, SetL, Obj, Opq, Fn, ExcV, ModV,
+from .values import (V, Num, Bool, Str, NoneV, NONE, Opt, Tup, Lst, Dct, SetV, SetL, DctL, NDArr, Obj, Opq, Fn, ExcV, ModV,
                      truth, is_none, strip_opt, ite, eq, num_pair, fresh_int, fresh_real, fresh_bool,
                      fresh_name, str_lit)
 
@@ -100,6 +100,7 @@ class Exec:
         self.numeric = numeric  # float-mode object (see floats.py) or None for mode R
         self.trace = trace if trace is not None else {"inlined": set(), "handlers": set(), "assumed": set()}
         self.inline_prefixes = ()
+        self._bg_keys = set()
         self.index_ctx = []   # enclosing loop indices (z3 Int terms): fresh symbols become functions of them
         self.loop_tag = ()
         self.depth = 0
@@ -111,6 +112,7 @@ class Exec:
         c.index_ctx = list(self.index_ctx)
         c.loop_tag = self.loop_tag
         c.inline_prefixes = self.inline_prefixes
+        c._bg_keys = self._bg_keys
         return c
 
     def fresh_sym(self, sort, prefix, node=None):
@@ -124,9 +126,31 @@ class Exec:
         return f(*self.index_ctx)
 
     def bg_local(self, p, facts, guard=None):
-        """Defining axioms of fresh symbols (definitional extension; guarded so they are always satisfiable)."""
+        """Defining axioms of fresh symbols (definitional extension; guarded so they are always satisfiable).
+        Inside a summarised loop body the fresh symbols are functions of the loop indices and the body is
+        re-executed at arbitrary index terms (also under quantifiers), so the axioms are stated for ALL index values."""
         f = z3.And(*facts)
-        self.bg.append(z3.Implies(guard, f) if guard is not None else f)
+        if guard is not None:
+            f = z3.Implies(guard, f)
+        vs, seen = [], set()
+        for t in self.index_ctx:
+            stack = [t]
+            while stack:
+                x = stack.pop()
+                if z3.is_const(x) and x.decl().kind() == z3.Z3_OP_UNINTERPRETED and x.sort() == z3.IntSort():
+                    if x.get_id() not in seen:
+                        seen.add(x.get_id())
+                        vs.append(x)
+                else:
+                    stack.extend(x.children())
+        if vs:
+            f = z3.ForAll(vs, f)
+        key = f.sexpr() if len(self.bg) < 400 else None
+        if key is not None:
+            if key in self._bg_keys:
+                return
+            self._bg_keys.add(key)
+        self.bg.append(f)
 
     # ------------------------------------------------------------------ feasibility
     def feasible(self, cond) -> bool:
@@ -348,7 +372,7 @@ class Exec:
                     pairs.append((Str(f["name"]), Obj("pydantic.FieldInfo", {"default": d if d is not None else NONE})))
                 return [(p, Dct(pairs))]
             return [(p, Fn("classattr", (base.data, (attr,))))]
-        if isinstance(base, (Lst, Dct, Str, Tup, SetV)):
+        if isinstance(base, (Lst, Dct, DctL, Str, Tup, SetV)):
             return [(p, Fn("method", (base, attr)))]
         raise Unsupported(f"{self.module.name}:{node.lineno}: attribute {attr} of {type(base).__name__}")
 
@@ -683,6 +707,18 @@ class Exec:
             if base.concrete and not base.items:
                 raise DeadPath()
             return [(p, base.at(it))]
+        if isinstance(base, NDArr):
+            p, i = self.as_num(idx, p, node)
+            it = i.t
+            p = self.implicit(p, z3.Not(z3.And(it >= -base.n, it < base.n)), "IndexError", node)
+            if self.feasible(p.cond + [it < 0]):
+                it = z3.If(it < 0, base.n + it, it)
+            return [(p, base.at(it))]
+        if isinstance(base, DctL):
+            from .calls import last_match
+            found, w = last_match(self, p, base.keys.length(), lambda j: eq(idx, base.keys.at(j)), node, "didx")
+            p = self.implicit(p, z3.Not(found), "KeyError", node)
+            return [(p, base.vals.at(w))]
         if isinstance(base, Opq):
             h = self.handlers.get("getitem:" + base.kind)
             if h:
@@ -780,7 +816,12 @@ class Exec:
                     out.append((q, Dct(acc) if kind == "dict" else Lst(items=acc)))
                 continue
             if kind == "dict":
-                raise Unsupported("dict comprehension over symbolic list")
+                if g.ifs:
+                    raise Unsupported("filtered dict comprehension over symbolic list")
+                kn = ast.copy_location(ast.ListComp(elt=n.key, generators=n.generators), n)
+                vn = ast.copy_location(ast.ListComp(elt=n.value, generators=n.generators), n)
+                out.append((p1, DctL(self.sym_comprehension(kn, g, seq, p1), self.sym_comprehension(vn, g, seq, p1))))
+                continue
             out.append((p1, self.sym_comprehension(n, g, seq, p1)))
         return out
 
